@@ -404,6 +404,40 @@ def check_routing(eng, final, post):
     return None
 
 
+def check_routing_new(eng, final, post):
+    """[C04] for the splits a step creates: below a stored non-zero normal every item sits on the
+    side D::side answered for it against that very normal."""
+    by_nid = {}
+    for t, node in post.items():
+        if W.node_kind(node) != W.SPLIT:
+            continue
+        nrm = node.f[0].f[2]
+        while isinstance(nrm, Ref):
+            nrm = eng.deref(nrm)
+        if isinstance(nrm, Agg) and nrm.kind == "Cow":
+            nrm = nrm.f[0]
+        if isinstance(nrm, Opaque) and isinstance(nrm.data, dict) and nrm.data.get("nid"):
+            by_nid[nrm.data["nid"]] = (t, node, nrm.data["zero"])
+    sides = final.env.get("sides", [])
+    sites = final.env.get("side_sites", [])
+    for (item, b), site in zip(sides, sites):
+        if site not in by_nid or item is None:
+            continue
+        t, node, zero = by_nid[site]
+        sp = node.f[0]
+        problems, conds = [], []
+        lb, _ = walk(eng, post, sp.f[0], set(), problems, conds)
+        rb, _ = walk(eng, post, sp.f[1], set(), problems, conds)
+        want = z3.If(b, rb, lb)
+        it = item if z3.is_expr(item) else BV(item, 32)
+        cond = z3.And(z3.Not(zero), (want & bit(it)) == BV(0, U))
+        ok, m = eng.check(final.pc, cond)
+        if ok:
+            return {"clause": f"an item is not on the side of the new split {t} that D::side returned for it against the stored (non-zero) normal",
+                    "model": m, "cond": cond}
+    return None
+
+
 def check_capacity(eng, final, post, root, split_after):
     """[C15/C10] every bucket above capacity is listed in large_descendants by its node id, and
     everything listed there is the id of a bucket of the post-state."""
@@ -604,6 +638,21 @@ def build_scenario(kind, v):
     pre, vals = v["pre"], v["values"]
     try:
         sa = int(vals.get("split_after", 2))
+        if kind == "make_tree":
+            # a first build over S (Euclidean, points on the x axis with alternating signs so that a
+            # plane through the origin separates them), several RNG seeds
+            its = vals.get("set:item_set", [])
+            if not its:
+                return None
+            out = []
+            for seed in range(6):
+                out.append(f"=== seed {seed}")
+                out.append("dim 2")
+                for k, i in enumerate(its):
+                    out.append(f"add {i} {(-1) ** k * (k + 1):.1f},0.0")
+                out.append(f"build n_trees=1 split_after={sa} seed={seed}")
+                out += ["expect_valid", f"expect_buckets_within {sa}", "expect_routing"]
+            return "\n".join(out) + "\n"
         if kind == "insert":
             adds = vals.get("set:new_items", [])
             signs = {}
@@ -928,6 +977,8 @@ def run_make_tree(ctx, max_items, deadline):
                             if ok:
                                 v = {"clause": f"bucket {t} holds more items than split_after", "model": m}
                                 break
+                if v is None:
+                    v = check_routing_new(eng, f, post)
             except E.Unknown as e:
                 results["unknown"].append(f"|S|={n}: {e}")
                 continue
